@@ -512,23 +512,9 @@ def stream(rng, n):
             v = make_vcase(rng, dm, fmt=fmt)
         except (ValueError, IndexError, RuntimeError):
             v = None
-        if v is not None and not known_c14_class(v):
+        if v is not None:
             out.append(v)
     return out
-
-
-def known_c14_class(v):
-    """known finding C14-symbolic-zero-block: symbolic values and a block listed in
-    fully_diagonalize (or the single block) whose H_0 block is all zero - crashes while
-    evaluating; kept out of this stream (tools/checks/C14.py reports it)."""
-    c = v["case"]
-    if c["fmt"] != "sympy":
-        return False
-    bl = blocks_of(c)
-    H0 = gq.dec(c["H"][zkey(c)])
-    f = c["fully"]
-    listed = list(range(len(bl))) if (f is None and len(bl) == 1) else ([] if f is None else [int(x) for x in f])
-    return any(block_is_zero(H0, bl[b], bl[b]) for b in listed if b < len(bl))
 
 
 def summary(v):
